@@ -135,8 +135,8 @@ func c19(r *core.Run) {
 		}
 	}
 	_ = isBatchWrite
-	r.Floor("C19.W1", "*InBatch methods", nBatch, 9)
-	r.Floor("C19.W1", "direct write methods", nDirect, 9)
+	r.Floor("C19.W1", "*InBatch methods", nBatch, 5)
+	r.Floor("C19.W1", "direct write methods", nDirect, 5)
 
 	// P1/A1: Index keys
 	// the key-space selectors are package variables set once from the backend
